@@ -3,4 +3,4 @@
 From Coq Require Extraction ExtrOcamlBasic.
 From BVA Require Import Base.Prelude Base.Result Model.Core Model.Run Spec.Prop Spec.CaseOk.
 Extraction Language OCaml.
-Extraction "../ocaml/model.ml" run_case decode_case decode_result corr_line result_eqb prop_case spec_show case_okb lens_okb prop_verdict corr_verdict.
+Extraction "../ocaml/model.ml" run_case decode_case decode_result corr_line result_eqb prop_case spec_show case_okb lens_okb model_consulted prop_verdict corr_verdict.
